@@ -97,7 +97,12 @@ let judge op args got =
         end in
       (* the printer read through the REGENERATED dispatch functions (IoDispatch4Model.digits_gen) *)
       let gen_ok () = let r = Model.kind_radix k in
-        not (Model.radix_valid r) || Model.digits_gen !wcur r (Zar.abs v) = Model.digits_asis !wcur r (Zar.abs v) in
+        not (Model.radix_valid r) ||
+        (let ds = Model.digits_asis !wcur r (Zar.abs v) in
+         let prefix = if f.Model.f_alt then Model.kind_prefix k else [] in
+         Model.digits_gen !wcur r (Zar.abs v) = ds
+         (* ... and the layout regenerated from format_prepared's output statements, on these digits *)
+         && Model.format_prepared_gen f (Zar.sign v < 0) prefix ds = Model.format_prepared_asis f (Zar.sign v < 0) prefix ds) in
       (match spec with
        | Model.Ok l ->
            let t = tok_of_bytes l in
